@@ -1268,8 +1268,12 @@ def _meta_apply_transform(obj, grp_func):
 
 def groupby_projection(expr, parent, dependents):
     if isinstance(parent, Projection):
+        additional_columns = list(expr._by_columns)
+        if "_slice" in expr._parameters and expr.operand("_slice") is not None:
+            # the aggregation still selects these columns from the frame
+            additional_columns += _convert_to_list(expr.operand("_slice"))
         columns = determine_column_projection(
-            expr, parent, dependents, additional_columns=expr._by_columns
+            expr, parent, dependents, additional_columns=additional_columns
         )
         columns = _convert_to_list(columns)
         columns = [col for col in expr.frame.columns if col in columns]
